@@ -387,7 +387,9 @@ func (a *Analysis) ruleWiring() {
 					// registered dependency delivered as nil
 					if a.nilFaultFired(t.Members[0].Reg) {
 						// the producing constructor was made to return nil: delivering nil is accepted
-					} else if dep.Optional && a.faultInOp[inv.Op] {
+					} else if dep.Optional && (a.faultInOp[inv.Op] || a.anyFault()) {
+						// (a fault earlier in the run - e.g. a singleton left nil at Build - can make the
+						// optional service unresolvable now; the swallowed error is the same finding)
 						a.add("C15", "C15.optional", "optional-swallow", "r%d#%d: optional field %s is registered, its construction failed, and the failure was swallowed (field left nil)", inv.Reg, inv.N, dep)
 					} else {
 						a.add("C04", "C04.args", "nil-arg/"+regShape(r), "r%d#%d: parameter %s is registered (r%d) but nil was injected", inv.Reg, inv.N, dep, t.Members[0].Reg)
